@@ -50,7 +50,7 @@ def chart_text(ctype, desc, diff, meter, measures, comments=False):
         lines = list(rows)
         if comments and mi == 0:
             # comment line, blank line, a line of blanks, comments after a row and after the measure separator's line
-            lines = ["  // measure %d: first; of many" % mi] + [lines[0] + "  // row 0"] + ["", "  "] + lines[1:-1] + [lines[-1] + " // last"]
+            lines = ["  // measure %d: first; of many" % mi] + [lines[0] + "  // row 0", lines[1] + "// row 1"] + ["", "  "] + lines[2:-1] + [lines[-1] + " // last"]
         body.append("\n".join(lines))
     return "//--------- %s - %s ----------\n#NOTES:\n     %s:\n     %s:\n     %s:\n     %s:\n     0.1,0.2,0.3,0.4,0.5:\n%s\n;\n" % (
         ctype, desc, ctype, desc, diff, meter, "\n,\n".join(body))
@@ -80,6 +80,7 @@ BPM_SETS = {
     "third": ["0.000", "1.333", "6.000"],
     "48th": ["0.000", "4.021"],
     "unsorted": ["0.000", "6.000", "2.000"],
+    "tie": ["0.000", "4.000", "4.000", "6.500"],
 }
 
 
@@ -128,7 +129,7 @@ def ref_objects(ctx, d, chart):
     return out
 
 
-EXACT_SETS = ("one", "measure-line", "mid-measure", "mid+line", "unsorted")  # beats that a 3-decimal numeral renders exactly
+EXACT_SETS = ("one", "measure-line", "mid-measure", "mid+line", "unsorted", "tie")  # beats that a 3-decimal numeral renders exactly
 
 
 def _eq_tol(ctx, tol):
@@ -223,6 +224,8 @@ def random_chart(rng):
 def random_bpms(rng):
     """#BPMS beats on the 1/8-beat grid (3-decimal numerals that are exact), listed in random order after beat 0"""
     later = rng.sample([F(k, 8) for k in range(1, 16 * 8)], rng.randint(0, 3))
+    if later and rng.random() < 0.25:  # two entries on one beat: the later listed one is in force
+        later.append(rng.choice(later))
     rng.shuffle(later)
     return ["0.000"] + ["%.3f" % float(b) for b in later]
 
@@ -247,7 +250,7 @@ def obligations(tier, seed):
     for keys in (4, 3, 6, 7, 8):
         for pi, pn in enumerate(pnames):
             for bi, bs in enumerate(BPM_SETS):
-                if quick and not ((pi + bi + keys) % 4 == 0 or (keys == 4 and bi in (0, 2) and pi < 4) or (pn == "20+28-rows" and bi in (0, 3))):
+                if quick and not ((pi + bi + keys) % 4 == 0 or (keys == 4 and bi in (0, 2) and pi < 4) or (pn == "20+28-rows" and bi in (0, 3)) or (bs == "tie" and pi in (0, 2, 4) and keys in (4, 7))):
                     continue
                 combos.append(([(keys, pn, "desc", "Hard", 9)], bs))
     for charts, bs in combos:
@@ -261,6 +264,9 @@ def obligations(tier, seed):
     one = [(4, "hold-across-measures", "d", "Hard", 9)]
     obs.append(Obligation("C02/read/no-stops-tag", partial(ob_read, one, "mid-measure", stops_tag=""), bound="file without any #STOPS tag"))
     obs.append(Obligation("C02/read/comments-and-blank-lines", partial(ob_read, one, "mid-measure", comments=True), bound="comment line and blank line between rows"))
+    for pn in ("mixed-symbols", "roll+hold", "two-holds-one-column"):
+        obs.append(Obligation("C02/read/comments-and-blank-lines/%s" % pn, partial(ob_read, [(4, pn, "d", "Hard", 9)], "mid-measure", comments=True),
+                              bound="pattern %s with comments after consecutive rows that hold objects, comment lines, blank lines" % pn))
     obs.append(Obligation("C02/read/header-comments-containing-#", partial(ob_read, one, "mid-measure", header_comment=True), bound="comment lines containing '#' before #OFFSET and #BPMS"))
     for width, ctype in ((8, "dance-couple"), (8, "dance-routine"), (5, "pump-single"), (10, "pump-double"), (6, "pump-halfdouble")):
         for pn, bs in (("taps", "mid-measure"), ("roll+hold", "one"), ("mixed-symbols", "measure-line")) if not quick else (("mixed-symbols", "mid-measure"), ("roll+hold", "one")):
